@@ -9,6 +9,7 @@ static nsync_atomic_uint32_ other_word;
 void h_spin_test_and_set_mu (void) {
 	uint32_t test = vp_nondet_u32 (), set = vp_nondet_u32 (), clear = vp_nondet_u32 ();
 	vp_reg_clear ();
+	vp_fw_init ();
 	vp_reg.mu_word = &the_mu.word;
 	vp_mu_init_ghost ((int) (vp_nondet_u32 () % 3), 0, vp_nondet_bool ());
 	vp_g.observer = vp_nondet_bool ();
@@ -19,6 +20,7 @@ void h_spin_test_and_set_mu (void) {
 }
 void h_spin_test_and_set_other (void) {
 	vp_reg_clear ();
+	vp_fw_init ();
 	vp_mu_init_ghost (0, 0, 0);
 	(void) nsync_spin_test_and_set_ (&other_word, vp_nondet_u32 (), vp_nondet_u32 (), vp_nondet_u32 ());
 	VP_CANARY ();
